@@ -119,11 +119,13 @@ func (p *SSHPOP) authorizeToken(token string, audiences []string, checkValidity 
 	// Controller.AuthorizeSSHRenew will validate this on the renewal flow.
 	if checkValidity {
 		unixNow := time.Now().Unix()
-		if after := cast.Int64(sshCert.ValidAfter); after < 0 || unixNow < cast.Int64(sshCert.ValidAfter) {
+		if after, err := cast.SafeInt64(sshCert.ValidAfter); err != nil || unixNow < after {
 			return nil, errs.Unauthorized("sshpop.authorizeToken; sshpop certificate validAfter is in the future")
 		}
-		if before := cast.Int64(sshCert.ValidBefore); sshCert.ValidBefore != uint64(ssh.CertTimeInfinity) && (unixNow >= before || before < 0) {
-			return nil, errs.Unauthorized("sshpop.authorizeToken; sshpop certificate validBefore is in the past")
+		if sshCert.ValidBefore != uint64(ssh.CertTimeInfinity) {
+			if before, err := cast.SafeInt64(sshCert.ValidBefore); err != nil || unixNow >= before {
+				return nil, errs.Unauthorized("sshpop.authorizeToken; sshpop certificate validBefore is in the past")
+			}
 		}
 	}
 
